@@ -324,7 +324,7 @@ func (p *c55plainReader) Read(dst []byte) (int, error) {
 
 type c55doResult struct {
 	panicked bool
-	firstKey string
+	order    string // decoded names joined by NUL, in stream order
 	decoded  bool
 }
 
@@ -399,8 +399,12 @@ func c55runDo(r *vk.Run, id string, params map[string]string, body io.Reader, wa
 	if q.maxPayload > 65535 { // cannot happen with a 16-bit length; kept as the literal clause
 		r.Violation("records:payload-over-65535", id, fmt.Sprintf("record payload %d", q.maxPayload))
 	}
-	if len(q.params) > 0 {
-		res.firstKey = string(q.params[0].k)
+	if len(q.params) <= 3 {
+		ks := make([]string, len(q.params))
+		for i, p := range q.params {
+			ks[i] = string(p.k)
+		}
+		res.order = strings.Join(ks, "\x00")
 	}
 	// parameters: multiset equality
 	good := true
@@ -476,12 +480,13 @@ func c55short(s string) string {
 	return s
 }
 
-// c55runOrders runs the case until every rotation of the map iteration order was observed (maps
-// of up to 3 entries live in one bucket: the runtime only rotates the slot order).
-func c55runOrders(r *vk.Run, id string, params map[string]string, body []byte) {
-	n := len(params)
-	seen := map[string]bool{}
-	for attempt := 0; attempt < 1+32*n; attempt++ {
+// c55runOrders repeats the case until the PARAMS stream carried the pairs in the order `keys`
+// (the insertion order). Go's runtime starts the iteration of a small map at a random slot, so a
+// single run emits a rotation of the insertion order; the enumeration above it lists every ordered
+// tuple of pair shapes, hence forcing the insertion order once per case covers every emission
+// order of every multiset of shapes. Every run is judged, whatever its order.
+func c55runOrders(r *vk.Run, id string, params map[string]string, keys []string, body []byte) {
+	for attempt := 0; attempt < 60; attempt++ {
 		var rd io.Reader
 		if body != nil {
 			rd = bytes.NewReader(body)
@@ -490,14 +495,14 @@ func c55runOrders(r *vk.Run, id string, params map[string]string, body []byte) {
 		if res.panicked || !res.decoded {
 			return
 		}
-		seen[res.firstKey] = true
-		if len(seen) >= n {
-			r.Outcome("request:all-map-orders-seen")
+		if res.order == strings.Join(keys, "\x00") {
+			r.Outcome("request:insertion-order-emitted")
 			return
 		}
+		r.Outcome("request:rotated-order-emitted")
 	}
-	r.Outcome("request:some-map-orders-not-seen")
-	r.Set("orders_not_seen_case", id)
+	r.Outcome("request:insertion-order-not-seen")
+	r.Set("insertion_order_not_seen_case", id)
 }
 
 // ---------------------------------------------------------------------------------------
@@ -906,8 +911,8 @@ func TestVerifC55(t *testing.T) {
 				continue
 			}
 			m := map[string]string{c55name(0, nl): c55value(0, vl)}
-			c55runOrders(r, id, m, nil)
-			c55runOrders(r, id, m, c55body(9))
+			c55runOrders(r, id, m, []string{c55name(0, nl)}, nil)
+			c55runOrders(r, id, m, []string{c55name(0, nl)}, c55body(9))
 			if nontrivialPair(nl, vl) {
 				r.Nontrivial(id)
 			}
@@ -923,8 +928,8 @@ func TestVerifC55(t *testing.T) {
 	var pairs2 []pl
 	n2, v2 := nameLens, valLens
 	if !r.Thorough() {
-		n2 = []int{0, 1, 128, maxWrite - 8, maxWrite - 7, 70000}
-		v2 = []int{0, 127, 128, maxWrite - 8 - 128, maxWrite - 8 - 128 + 1, maxWrite - 8, maxWrite - 7, 70000}
+		n2 = []int{0, 1, 127, 128, maxWrite - 8, maxWrite - 7, 70000}
+		v2 = []int{0, 1, 127, 128, maxWrite - 8 - 128, maxWrite - 8 - 128 + 1, maxWrite - 8, maxWrite - 7, 65536, 70000}
 	}
 	r.Set("P2.nameLens", n2)
 	r.Set("P2.valLens", v2)
@@ -951,7 +956,7 @@ func TestVerifC55(t *testing.T) {
 			m := map[string]string{}
 			m[c55name(0, a.n)] = c55value(0, a.v)
 			m[c55name(1, b.n)] = c55value(1, b.v)
-			c55runOrders(r, id, m, nil)
+			c55runOrders(r, id, m, []string{c55name(0, a.n), c55name(1, b.n)}, nil)
 			if nontrivialPair(a.n, a.v) || nontrivialPair(b.n, b.v) {
 				r.Nontrivial(id)
 			}
@@ -961,7 +966,7 @@ func TestVerifC55(t *testing.T) {
 	mark("P2")
 	// ---- P3: three parameters over a reduced alphabet aimed at record splitting
 	n3 := []int{1, 128}
-	v3 := []int{0, 128, 30000, maxWrite - 8 - 128, maxWrite - 8, 70000}
+	v3 := []int{0, 127, 128, 30000, maxWrite - 8 - 128, maxWrite - 8, maxWrite - 7, 70000}
 	if r.Thorough() {
 		n3 = []int{0, 1, 128, maxWrite - 8}
 		v3 = []int{0, 1, 127, 128, 30000, 35500, maxWrite - 8 - 128, maxWrite - 9, maxWrite - 8, maxWrite - 7, 70000}
@@ -999,7 +1004,7 @@ func TestVerifC55(t *testing.T) {
 				m[c55name(0, a.n)] = c55value(0, a.v)
 				m[c55name(1, b.n)] = c55value(1, b.v)
 				m[c55name(2, c.n)] = c55value(2, c.v)
-				c55runOrders(r, id, m, nil)
+				c55runOrders(r, id, m, []string{c55name(0, a.n), c55name(1, b.n), c55name(2, c.n)}, nil)
 				r.Nontrivial(id)
 			}
 		}
@@ -1046,7 +1051,7 @@ func TestVerifC55(t *testing.T) {
 	// ---- B: bodies x reader kinds x parameter maps
 	bodySizes := []int{0, 1, 7, 8, maxWrite - 1, maxWrite, maxWrite + 1, 65535, 65536, 2*maxWrite - 1, 2 * maxWrite, 2*maxWrite + 1, 131072}
 	if r.Thorough() {
-		bodySizes = append(bodySizes, 9, 4096, 65534, 65537, 3*maxWrite - 1, 3 * maxWrite, 3*maxWrite + 1, 400000)
+		bodySizes = append(bodySizes, 9, 4096, 65534, 65537, 3*maxWrite-1, 3*maxWrite, 3*maxWrite+1, 400000)
 	}
 	chunks := []int{0, 4096, maxWrite - 1, maxWrite, maxWrite + 1, 65536}
 	if r.Thorough() {
@@ -1056,7 +1061,7 @@ func TestVerifC55(t *testing.T) {
 	pmaps := []map[string]string{
 		{},
 		{"REQUEST_METHOD": "POST", "CONTENT_LENGTH": "1", "SCRIPT_FILENAME": "/var/www/index.php"},
-		{c55name(0, 10): c55value(0, maxWrite - 8 - 10)},
+		{c55name(0, 10): c55value(0, maxWrite-8-10)},
 	}
 	for _, bs := range bodySizes {
 		for pi, pm := range pmaps {
@@ -1147,82 +1152,104 @@ func TestVerifC55(t *testing.T) {
 	// ---- R: responder record sequences
 	c55checkDoReader()
 	r.Set("R.reader_built_directly", c55doReaderChecked)
-	alpha := c55alphabet(r.Thorough())
-	names := make([]string, len(alpha))
-	for i, s := range alpha {
-		names[i] = s.name
+	// quick: base alphabet up to length 4; thorough: base alphabet up to length 6 and the
+	// extended alphabet (64 KiB record, STDERR CRLFCRLF, bare-LF header block) up to length 4
+	type rfam struct {
+		tag    string
+		alpha  []c55sym
+		maxLen int
 	}
-	r.Set("R.alphabet", names)
-	maxLen := r.Pick(4, 5)
-	r.Set("R.maxLen", maxLen)
-	l1 := []c55cfg{{0, 4096}, {1, 4096}, {5, 1}, {0, 3}}
-	l2 := []int{0, 1, 5}
-	var seq []int
-	var walk func(depth int)
-	walk = func(depth int) {
-		if expired("R") {
-			return
+	fams := []rfam{{"R", c55alphabet(false), r.Pick(4, 6)}}
+	if r.Thorough() {
+		fams = append(fams, rfam{"RX", c55alphabet(true), 4})
+	}
+	for _, fam := range fams {
+		alpha, maxLen := fam.alpha, fam.maxLen
+		names := make([]string, len(alpha))
+		for i, s := range alpha {
+			names[i] = s.name
 		}
-		// sequences of length >= 2 belong to the shard owning their first two symbols (filtered
-		// below); shorter ones are owned by an index of their own
-		run := true
-		switch len(seq) {
-		case 0:
-			run = r.Mine(7)
-		case 1:
-			run = r.Mine(seq[0] + 11)
-		}
-		if run {
-			for term := 0; term < c55numTerm; term++ {
-				if term == c55termCut && len(seq) == 0 {
-					continue
-				}
-				id := "R|" + vk.IntsString(seq) + "|" + c55termName[term]
-				if !r.Case(id) {
-					continue
-				}
-				big := 0
-				for _, s := range seq {
-					if len(alpha[s].content) > 60000 {
-						big++
+		r.Set(fam.tag+".alphabet", names)
+		r.Set(fam.tag+".maxLen", maxLen)
+		l1 := []c55cfg{{0, 4096}, {1, 4096}, {5, 1}, {0, 3}}
+		l2 := []int{0, 1, 5}
+		var seq []int
+		var walk func(depth int)
+		walk = func(depth int) {
+			if expired("R") {
+				return
+			}
+			// sequences of length >= 2 belong to the shard owning their first two symbols (filtered
+			// below); shorter ones are owned by an index of their own
+			run := true
+			switch len(seq) {
+			case 0:
+				run = r.Mine(7)
+			case 1:
+				run = r.Mine(seq[0] + 11)
+			}
+			if fam.tag == "RX" {
+				// sequences over the base symbols alone are already in family R
+				ext := false
+				for _, x := range seq {
+					if x >= len(fams[0].alpha) {
+						ext = true
 					}
 				}
-				cl1, cl2 := l1, l2
-				if big > 0 {
-					// one-byte fragments over 64 KiB records cost too much: keep whole and 5-byte ones
-					cl1 = []c55cfg{{0, 4096}, {5, 1000}, {0, 3}}
-					cl2 = []int{0, 4093}
-				}
-				c55runScript(r, id, alpha, seq, term, cl1, cl2)
-				nOut := 0
-				for _, s := range seq {
-					if alpha[s].typ == FCGIStdout && len(alpha[s].content) > 0 {
-						nOut++
+				run = run && ext
+			}
+			if run {
+				for term := 0; term < c55numTerm; term++ {
+					if term == c55termCut && len(seq) == 0 {
+						continue
+					}
+					id := fam.tag + "|" + vk.IntsString(seq) + "|" + c55termName[term]
+					if !r.Case(id) {
+						continue
+					}
+					big := 0
+					for _, s := range seq {
+						if len(alpha[s].content) > 60000 {
+							big++
+						}
+					}
+					cl1, cl2 := l1, l2
+					if big > 0 {
+						// one-byte fragments over 64 KiB records cost too much: keep whole and 5-byte ones
+						cl1 = []c55cfg{{0, 4096}, {5, 1000}, {0, 3}}
+						cl2 = []int{0, 4093}
+					}
+					c55runScript(r, id, alpha, seq, term, cl1, cl2)
+					nOut := 0
+					for _, s := range seq {
+						if alpha[s].typ == FCGIStdout && len(alpha[s].content) > 0 {
+							nOut++
+						}
+					}
+					if len(seq) >= 2 && nOut >= 1 {
+						r.Nontrivial(id)
+					}
+					if len(seq) == 3 && seq[0] == 0 && seq[1] == 6 && seq[2] == 3 && term == 0 {
+						r.Sample(map[string]interface{}{"case": id, "records": "STDOUT(headers) STDERR(text) STDOUT(body) END_REQUEST"})
 					}
 				}
-				if len(seq) >= 2 && nOut >= 1 {
-					r.Nontrivial(id)
+			}
+			if depth == maxLen {
+				return
+			}
+			for s := range alpha {
+				if depth == 1 {
+					// shard by the first two symbols
+					if !r.Mine(seq[0]*len(alpha) + s + 101) {
+						continue
+					}
 				}
-				if len(seq) == 3 && seq[0] == 0 && seq[1] == 6 && seq[2] == 3 && term == 0 {
-					r.Sample(map[string]interface{}{"case": id, "records": "STDOUT(headers) STDERR(text) STDOUT(body) END_REQUEST"})
-				}
+				seq = append(seq, s)
+				walk(depth + 1)
+				seq = seq[:len(seq)-1]
 			}
 		}
-		if depth == maxLen {
-			return
-		}
-		for s := range alpha {
-			if depth == 1 {
-				// shard by the first two symbols
-				if !r.Mine(seq[0]*len(alpha) + s + 101) {
-					continue
-				}
-			}
-			seq = append(seq, s)
-			walk(depth + 1)
-			seq = seq[:len(seq)-1]
-		}
+		walk(0)
+		mark(fam.tag)
 	}
-	walk(0)
-	mark("R")
 }
